@@ -11,6 +11,7 @@ import (
 	"net/http/httptest"
 	"strings"
 	"sync"
+	"sync/atomic"
 	"time"
 
 	gohlslib "github.com/bluenviron/gohlslib/v2"
@@ -21,7 +22,10 @@ import (
 // ---- in-process transport ----
 
 type reqLog struct {
-	Seq    int
+	// number of Write calls the writer had STARTED when the response was complete: every parameter set the muxer
+	// held up to then comes from a write with a smaller index
+	WritesEnd int
+	Seq       int
 	Client int // attempt number
 	Path   string
 	Query  string
@@ -32,6 +36,7 @@ type reqLog struct {
 }
 
 type stub struct {
+	writes *int64 // started Write calls (atomic)
 	m      *gohlslib.Muxer
 	mu     sync.Mutex
 	log    []*reqLog
@@ -64,6 +69,7 @@ func (s *stub) RoundTrip(req *http.Request) (*http.Response, error) {
 		o.res.Body.Close()
 		s.mu.Lock()
 		e.Status, e.Body, e.Done = o.res.StatusCode, body, true
+		e.WritesEnd = int(atomic.LoadInt64(s.writes))
 		s.mu.Unlock()
 		o.res.Body = io.NopCloser(strings.NewReader(string(body)))
 		return o.res, nil
@@ -111,10 +117,35 @@ type pairResult struct {
 	EncErrors   []string
 	Written     [][]written // per muxer track, in writing order
 	MuxCodecs   []string    // codecparams.Marshal of every muxer track after Start
-	MuxParams   [][]string  // per muxer track: canonical parameters of every parameter id that was in force
+	ParamLine   [][]paramAt // per muxer track: the canonical parameters the muxer holds, from which write on
 	Clients     []*clientRun
 	Panic       string
 	WallMs      int64
+}
+
+// paramAt: from write [Op] on (-1: from Start) the muxer's Track.Codec holds [Params]
+type paramAt struct {
+	Op     int
+	Params string
+}
+
+// paramsBetween: the parameter sets in force at some moment from write lo to write hi (inclusive; the set in
+// force AT lo is the one established by the last change at or before it)
+func paramsBetween(line []paramAt, lo, hi int) []string {
+	if hi < lo {
+		lo, hi = hi, lo
+	}
+	var out []string
+	for i, e := range line {
+		next := 1 << 60
+		if i+1 < len(line) {
+			next = line[i+1].Op
+		}
+		if e.Op <= hi && next > lo { // in force during [e.Op, next)
+			out = append(out, e.Params)
+		}
+	}
+	return out
 }
 
 func hexs(bs ...[]byte) string {
@@ -319,23 +350,27 @@ func runPair(p *pairDesc) (res *pairResult) {
 	for _, tr := range tracks {
 		res.MuxCodecs = append(res.MuxCodecs, codecparams.Marshal(tr.Codec))
 	}
-	// every parameter set that is in force at some moment of the history, per track
-	res.MuxParams = make([][]string, len(h.Tracks))
+	// the parameters the muxer's Track.Codec holds along the history, per track (a write that carries
+	// parameter sets different from the current ones replaces them, C02)
+	res.ParamLine = make([][]paramAt, len(h.Tracks))
 	for i, t := range h.Tracks {
-		seen := map[int64]bool{t.Params0: true}
-		_, s := codecKindParams(mkCodec(t, t.Params0))
-		res.MuxParams[i] = []string{s}
-		for _, a := range h.Ops {
-			if a.Track == i && a.HasParams && !seen[a.Params] {
-				seen[a.Params] = true
-				_, s := codecKindParams(mkCodec(t, a.Params))
-				res.MuxParams[i] = append(res.MuxParams[i], s)
+		_, cur := codecKindParams(mkCodec(t, t.Params0))
+		res.ParamLine[i] = []paramAt{{Op: -1, Params: cur}}
+		for k := range h.Ops {
+			a := &h.Ops[k]
+			if a.Track != i || !a.HasParams {
+				continue
+			}
+			if _, s := codecKindParams(mkCodecP(t, a.pset())); s != cur {
+				cur = s
+				res.ParamLine[i] = append(res.ParamLine[i], paramAt{Op: k, Params: s})
 			}
 		}
 	}
 	res.Written = make([][]written, len(h.Tracks))
 
-	st := &stub{m: m}
+	var writesStarted int64
+	st := &stub{m: m, writes: &writesStarted}
 	t0 := time.Now()
 	writerDone := make(chan struct{})
 	var wmu sync.Mutex
@@ -361,6 +396,7 @@ func runPair(p *pairDesc) (res *pairResult) {
 			}
 			tr := tracks[a.Track]
 			ntp := time.Unix(0, a.NTP)
+			atomic.StoreInt64(&writesStarted, int64(k)+1)
 			var err error
 			switch h.Tracks[a.Track].Kind {
 			case kH264:
